@@ -161,7 +161,6 @@ class Evaluator:
                 return Unk('add')
             return Sym(ast.unparse(e), e)
         if isinstance(e, ast.IfExp):
-            k, neg = _test_key(e.test)
             t = self.truth(e.test, p)
             if t is True:
                 return self.expr(e.body, p)
@@ -342,8 +341,21 @@ class Evaluator:
         return [(v, fc) for v, fc, _ in uniq]
 
     # -- truth folding -------------------------------------------------------
-    def truth(self, test, p):
+    def tkey(self, test, p):
+        """fact key of a test; a name bound to an (opaque) test expression stands for that expression"""
         k, neg = _test_key(test)
+        inner = test
+        while isinstance(inner, ast.UnaryOp) and isinstance(inner.op, ast.Not):
+            inner = inner.operand
+        if isinstance(inner, ast.Name):
+            v = p.env.get(inner.id)
+            if isinstance(v, Sym) and v.node is not None and isinstance(v.node, (ast.Compare, ast.BoolOp, ast.UnaryOp)):
+                k2, neg2 = _test_key(v.node)
+                return k2, neg != neg2
+        return k, neg
+
+    def truth(self, test, p):
+        k, neg = self.tkey(test, p)
         if k in p.facts:
             return p.facts[k] != neg
         inner = test
@@ -378,7 +390,7 @@ class Evaluator:
         return r != neg
 
     def assume(self, test, value, p):
-        k, neg = _test_key(test)
+        k, neg = self.tkey(test, p)
         p.facts[k] = (value != neg)
 
     def forget(self, name, p):
